@@ -1,7 +1,7 @@
 """C03 — the clock is monotone and lands exactly on the requested end; run_for terminates."""
 from harness import sched_common as sc
 from harness import sched_prop
-from harness.sched_prop import install
+from harness.sched_prop import install, zero_length_corpus
 
 
 def _times(events):
@@ -52,7 +52,8 @@ def oracle(case, impl):
 
 
 install(globals(), 'C03', view, oracle,
-        gen_opts=dict(p_quiet=0.45, allow_empty=True),
+        gen_opts=dict(p_quiet=0.45, allow_empty=True, zero_calls=True),
+        extra_corpus=zero_length_corpus(),
         budget={'quick': 250, 'thorough': 6000},
         rule='scheduler scenarios with 0–4 processes (empty process sets — steps only —, all-quiet sets, '
              'conditions that flip, adaptive state-dependent timesteps, timesteps shrinking after a deferral), 0–3 '
